@@ -18,6 +18,27 @@ type snapSpec struct {
 	index, term uint64
 	cfg, data   []byte
 	closed      bool
+	seq         int // creation order (position of its snap.new in the script)
+}
+
+// newestClosed: "the most recent snapshot whose writer was closed" has two readings when writers
+// overlap: closed last, or created last among the closed ones (the storage orders directories
+// by creation time). Both are accepted; see DESIGN.md section 11.
+func newestClosed(closedOrder []*snapSpec) []*snapSpec {
+	if len(closedOrder) == 0 {
+		return nil
+	}
+	byClose := closedOrder[len(closedOrder)-1]
+	byCreate := byClose
+	for _, c := range closedOrder {
+		if c.seq > byCreate.seq {
+			byCreate = c
+		}
+	}
+	if byCreate == byClose {
+		return []*snapSpec{byClose}
+	}
+	return []*snapSpec{byClose, byCreate}
 }
 
 // readState recovers term/vote from dir as a restarting node does.
@@ -191,7 +212,7 @@ func TestE2StateSnapCrash(t *testing.T) {
 					}
 					i, _ := strconv.ParseUint(f[2], 10, 64)
 					tm, _ := strconv.ParseUint(f[3], 10, 64)
-					writers[f[1]] = &snapSpec{index: i, term: tm, cfg: unhx(f[4])}
+					writers[f[1]] = &snapSpec{index: i, term: tm, cfg: unhx(f[4]), seq: k}
 				case "snap.write":
 					if k == inflight {
 						continue
@@ -243,9 +264,18 @@ func TestE2StateSnapCrash(t *testing.T) {
 				match := func(w *snapSpec) bool {
 					return w != nil && found && gs.index == w.index && gs.term == w.term && bytes.Equal(gs.cfg, w.cfg) && bytes.Equal(gs.data, w.data)
 				}
+				alt := false
+				for _, w := range newestClosed(closedOrder) {
+					if match(w) {
+						alt = true
+						if w != want {
+							rep.Hit("overlapping-writers-created-last-returned")
+						}
+					}
+				}
 				switch {
 				case want == nil && !found:
-				case match(want):
+				case alt:
 				case inflightClose != nil && match(inflightClose):
 				default:
 					okSnap = false
@@ -337,6 +367,7 @@ func checkLiveReads(rep *Report, script []string, muts []Mut, short string) {
 	curT, curV := uint64(0), ""
 	writers := map[string]*snapSpec{}
 	var lastClosed *snapSpec
+	var closedLive []*snapSpec
 	for k, line := range script {
 		f := strings.Fields(line)
 		switch f[0] {
@@ -346,11 +377,12 @@ func checkLiveReads(rep *Report, script []string, muts []Mut, short string) {
 		case "snap.new":
 			i, _ := strconv.ParseUint(f[2], 10, 64)
 			tm, _ := strconv.ParseUint(f[3], 10, 64)
-			writers[f[1]] = &snapSpec{index: i, term: tm, cfg: unhx(f[4])}
+			writers[f[1]] = &snapSpec{index: i, term: tm, cfg: unhx(f[4]), seq: k}
 		case "snap.write":
 			writers[f[1]].data = append(writers[f[1]].data, unhx(f[2])...)
 		case "snap.close":
 			lastClosed = writers[f[1]]
+			closedLive = append(closedLive, writers[f[1]])
 		case "snap.discard":
 			delete(writers, f[1])
 		case "snap.read":
@@ -359,7 +391,13 @@ func checkLiveReads(rep *Report, script []string, muts []Mut, short string) {
 				want = fmt.Sprintf("found=1 idx=%d term=%d len=%d sha=%x", lastClosed.index, lastClosed.term, len(lastClosed.data), sha256.Sum256(lastClosed.data))
 			}
 			rep.Hit("live-snap-read")
-			if got, ok := results[k]; ok && got != want {
+			okAlt := false
+			for _, w := range newestClosed(closedLive) {
+				if results[k] == fmt.Sprintf("found=1 idx=%d term=%d len=%d sha=%x", w.index, w.term, len(w.data), sha256.Sum256(w.data)) {
+					okAlt = true
+				}
+			}
+			if got, ok := results[k]; ok && got != want && !okAlt {
 				open := 0
 				for _, w := range writers {
 					if !w.closed && w != lastClosed {
